@@ -36,7 +36,7 @@ func (o *Distinct) Run(execCtx ExecutionContext, produce ProduceFn, metaSend Met
 		}, func(k []octosql.Value) uint64 {
 			return octosql.HashManyValues(k)
 		})
-	o.source.Run(
+	if err := o.source.Run(
 		execCtx,
 		func(ctx ProduceContext, record Record) error {
 			item, ok := recordCounts.Get(record.Values)
@@ -69,7 +69,9 @@ func (o *Distinct) Run(execCtx ExecutionContext, produce ProduceFn, metaSend Met
 		func(ctx ProduceContext, msg MetadataMessage) error {
 			return nil
 		},
-	)
+	); err != nil {
+		return fmt.Errorf("couldn't run source: %w", err)
+	}
 
 	return nil
 }
